@@ -813,6 +813,7 @@ func retryMain() {
 	}
 	cf := parse(filepath.Join(repo, "lib/file/control_file.go"))
 	hd := parse(filepath.Join(repo, "lib/file/handler.go"))
+	tx := parse(filepath.Join(repo, "lib/query/transaction.go"))
 
 	tries := map[string][]string{}
 	for _, n := range []string{"TryCreateLockFile", "TryCreateRLockFile", "TryCreateTempFile"} {
@@ -833,9 +834,10 @@ func retryMain() {
 	forRead := translateNewHandler(findFunc(hd, "", "NewHandlerForRead"))
 	forUpdate := translateNewHandler(findFunc(hd, "", "NewHandlerForUpdate"))
 
-	fmt.Println("-- GENERATED by /verif/extract/fsproto -retry from lib/file/control_file.go and lib/file/handler.go — do not edit.")
+	fmt.Println("-- GENERATED by /verif/extract/fsproto -retry from lib/file/control_file.go, lib/file/handler.go and lib/query/transaction.go — do not edit.")
 	fmt.Println("import Csvq.Model.Retry")
 	fmt.Println("import Csvq.Model.Release")
+	fmt.Println("import Csvq.Model.TxLocks")
 	fmt.Println("namespace Csvq.Gen.Retry")
 	fmt.Println("open Csvq.Retry Csvq.Retry.CF Csvq.Release")
 	fmt.Println()
@@ -864,6 +866,10 @@ func retryMain() {
 	emit("releaseCommitOther", "RStep", "Handler.commit of any other handler", translateRelease(findFunc(hd, "Handler", "commit"), "h", false))
 	emit("cfClose", "CStep", "ControlFile.Close", translateRelease(findFunc(cf, "ControlFile", "Close"), "m", false))
 	emit("cfCloseWithErrors", "CStep", "ControlFile.CloseWithErrors", translateRelease(findFunc(cf, "ControlFile", "CloseWithErrors"), "m", false))
+	fmt.Println("open Csvq.TxLocks in")
+	emit("txCommit", "Seg", "Transaction.Commit at the level of lock ownership: encodes, publications, releasing calls and error returns in source order", translateTx(findFunc(tx, "Transaction", "Commit")))
+	fmt.Println("open Csvq.TxLocks in")
+	emit("txRollback", "Seg", "Transaction.Rollback", translateTx(findFunc(tx, "Transaction", "Rollback")))
 	fmt.Println("end Csvq.Gen.Retry")
 }
 
@@ -949,5 +955,188 @@ func translateNewHandlerCreate(fd *ast.FuncDecl) []string {
 			die("%s: unsupported statement: %s", fn, src(s))
 		}
 	}
+	return out
+}
+
+// ---------------------------------------------------------------- Transaction.Commit / Rollback: lock ownership
+
+var txHarmless = map[string]bool{
+	"tx.operationMutex.Lock": true, "tx.operationMutex.Unlock": true, "ctx.Err": true, "ConvertContextError": true,
+	"tx.UncommittedViews.UncommittedFiles": true, "tx.UncommittedViews.UncommittedTempViews": true, "tx.UncommittedViews.Unset": true,
+	"tx.UncommittedViews.Clean": true, "make": true, "len": true, "append": true, "tx.CachedViews.Get": true, "fileInfo.IdentifiedPath": true,
+	"view.FileInfo.Handler.FileForUpdate": true, "fp.Truncate": true, "fp.Seek": true, "fp.Write": true, "err.Error": true,
+	"file.VerifPoint": true, "fileInfo.ExportOptions": true, "EncodeEndingLineBreak": true, "tx.LogNotice": true, "fmt.Sprintf": true,
+	"scope.StoreTemporaryTable": true, "scope.RestoreTemporaryTable": true, "strings.Join": true, "tx.quietForTemporaryViews": true,
+	"tx.UnlockStdin": true,
+}
+
+type txTr struct {
+	fn      string
+	inRelIf bool // inside `if err := <releasing call>; err != nil { … }`
+}
+
+func (t *txTr) callEvent(c *ast.CallExpr) string {
+	fn := src(c.Fun)
+	switch {
+	case fn == "EncodeView":
+		return ".encode"
+	case fn == "tx.FileContainer.Commit":
+		return ".commitTable"
+	case fn == "tx.ReleaseResources" || fn == "tx.ReleaseResourcesWithErrors":
+		return ".releaseAll"
+	case strings.HasPrefix(fn, "tx.CachedViews.") && !txHarmless[fn]:
+		switch m := strings.TrimPrefix(fn, "tx.CachedViews."); m {
+		case "Dispose", "DisposeExcept", "Clean", "CleanWithErrors":
+			return fmt.Sprintf(".releaseViews %q", "CachedViews."+m)
+		default:
+			die("%s: tx.CachedViews.%s is not reviewed (can it close handlers?)", t.fn, m)
+		}
+	case strings.HasPrefix(fn, "tx.FileContainer."):
+		switch m := strings.TrimPrefix(fn, "tx.FileContainer."); m {
+		case "Close", "CloseAll", "CloseWithErrors", "CloseAllWithErrors":
+			return fmt.Sprintf(".releaseViews %q", "FileContainer."+m)
+		default:
+			die("%s: tx.FileContainer.%s is not reviewed", t.fn, m)
+		}
+	}
+	if txHarmless[fn] || (strings.HasPrefix(fn, "New") && strings.HasSuffix(fn, "Error")) {
+		return ""
+	}
+	die("%s: call of %s is not reviewed (can it release a held table?)", t.fn, fn)
+	return ""
+}
+
+func (t *txTr) exprEvents(n ast.Node, out *[]string) {
+	if n == nil {
+		return
+	}
+	ast.Inspect(n, func(x ast.Node) bool {
+		switch v := x.(type) {
+		case *ast.FuncLit:
+			die("%s: function literal", t.fn)
+		case *ast.CallExpr:
+			for _, a := range v.Args {
+				t.exprEvents(a, out)
+			}
+			if e := t.callEvent(v); e != "" {
+				*out = append(*out, e)
+			}
+			return false
+		}
+		return true
+	})
+}
+
+func hasLoop(n ast.Node) bool {
+	found := false
+	ast.Inspect(n, func(x ast.Node) bool {
+		switch x.(type) {
+		case *ast.ForStmt, *ast.RangeStmt:
+			found = true
+		}
+		return !found
+	})
+	return found
+}
+
+// events of a statement without loops, in source order (an `if` is flattened: init, condition, body, else)
+func (t *txTr) stmtEvents(s ast.Stmt, out *[]string) {
+	switch v := s.(type) {
+	case *ast.ReturnStmt:
+		if len(v.Results) != 1 {
+			die("%s: unsupported return: %s", t.fn, src(v))
+		}
+		if isIdent(v.Results[0], "nil") {
+			*out = append(*out, ".returnNil")
+			return
+		}
+		t.exprEvents(v.Results[0], out)
+		if t.inRelIf {
+			*out = append(*out, ".relErrReturn")
+		} else {
+			*out = append(*out, ".errReturn")
+		}
+	case *ast.IfStmt:
+		n0 := len(*out)
+		if v.Init != nil {
+			t.stmtEvents(v.Init, out)
+		}
+		t.exprEvents(v.Cond, out)
+		saved := t.inRelIf
+		t.inRelIf = false
+		for _, e := range (*out)[n0:] {
+			if strings.HasPrefix(e, ".release") {
+				// the error return of a releasing call: the `if` tests the error of that call and nothing else
+				if _, ok := v.Init.(*ast.AssignStmt); ok && strings.HasSuffix(src(v.Cond), " != nil") && len(v.Body.List) == 1 {
+					t.inRelIf = true
+				}
+			}
+		}
+		for _, b := range v.Body.List {
+			t.stmtEvents(b, out)
+		}
+		t.inRelIf = saved
+		if v.Else != nil {
+			t.stmtEvents(v.Else, out)
+		}
+	case *ast.BlockStmt:
+		for _, b := range v.List {
+			t.stmtEvents(b, out)
+		}
+	case *ast.ForStmt, *ast.RangeStmt:
+		die("%s: nested loop", t.fn)
+	case *ast.DeferStmt:
+		if src(v.Call) != "tx.operationMutex.Unlock()" {
+			die("%s: unsupported defer: %s", t.fn, src(v))
+		}
+	case *ast.AssignStmt, *ast.ExprStmt, *ast.DeclStmt, *ast.IncDecStmt:
+		t.exprEvents(s, out)
+	default:
+		die("%s: unsupported statement: %s", t.fn, src(s))
+	}
+}
+
+func (t *txTr) segs(list []ast.Stmt, out *[]string) {
+	for _, s := range list {
+		switch v := s.(type) {
+		case *ast.RangeStmt:
+			var evs []string
+			t.exprEvents(v.X, &evs)
+			if len(evs) != 0 {
+				die("%s: events in a range expression", t.fn)
+			}
+			for _, b := range v.Body.List {
+				t.stmtEvents(b, &evs)
+			}
+			*out = append(*out, ".loop ["+strings.Join(evs, ", ")+"]")
+			continue
+		case *ast.ForStmt:
+			die("%s: unsupported for statement", t.fn)
+		case *ast.IfStmt:
+			if hasLoop(v) {
+				if v.Init != nil || v.Else != nil {
+					die("%s: unsupported if around a loop", t.fn)
+				}
+				var evs []string
+				t.exprEvents(v.Cond, &evs)
+				for _, e := range evs {
+					*out = append(*out, ".one "+e)
+				}
+				t.segs(v.Body.List, out)
+				continue
+			}
+		}
+		var evs []string
+		t.stmtEvents(s, &evs)
+		for _, e := range evs {
+			*out = append(*out, ".one ("+strings.TrimPrefix(e, "")+")")
+		}
+	}
+}
+
+func translateTx(fd *ast.FuncDecl) []string {
+	t := &txTr{fn: "Transaction." + fd.Name.Name}
+	var out []string
+	t.segs(fd.Body.List, &out)
 	return out
 }
